@@ -17,6 +17,7 @@ class World:
         self.root = root
         self.versions = [case["prog"]]      # IR snapshots; index = version
         self.cur = 0
+        self.edit_versions = [0]             # indices of the versions created by edit / revert operations
         self.srcdirs = {}
         self.procs = {}                      # pid -> dict(proc, ver, store, mutations, inst)
         self.ninst = 0
@@ -92,6 +93,7 @@ class World:
         p.call({"cmd": "init", "srcdir": self.srcdir(self.cur), "accept": acc,
                 "store": self.full_store_spec(info["store"]), "modules": mods,
                 "options": self.case.get("options", []), "cwd": self.case.get("cwd"), "location": loc,
+                "nb_single_cell": self.case.get("nb_single_cell"),
                 "main_module": main if loc != "package" else None,
                 "main_file": os.path.join(self.srcdir(self.cur), *(prog["pkg"] + [prog["mods"][0] + ".py"]))})
         self.procs[pid] = info
@@ -120,13 +122,17 @@ class World:
         if k == "edit":
             self.versions.append(gen.apply_edit(self.versions[self.cur], op["edit"]))
             self.cur = len(self.versions) - 1
+            self.edit_versions.append(self.cur)
             self.log.append([i, "edit", op["edit"]])
         elif k == "revert":
-            to = min(op["to"], len(self.versions) - 1)
+            to = self.edit_versions[min(op["to"], len(self.edit_versions) - 1)]
             self.versions.append(self.versions[to])
             self.cur = len(self.versions) - 1
+            self.edit_versions.append(self.cur)
             self.log.append([i, "revert", to])
             self.probe("revert")
+        elif k == "redefine":
+            self.do_redefine(i, op)
         elif k == "restart":
             self.restart(op.get("proc", 0))
             self.log.append([i, "restart", op.get("proc", 0)])
@@ -183,6 +189,38 @@ class World:
             self.do_load(i, op)
         else:
             raise HarnessError(f"unknown op {op}")
+
+    def do_redefine(self, i, op):
+        """Notebook only: a later cell defines again a function of the script module with its current text; the rest of
+        the process keeps the code it started with."""
+        if self.case.get("location") != "notebook":
+            return
+        info = self.ensure_proc(op.get("proc", 0))
+        old, new = self.versions[info["ver"]], self.versions[self.cur]
+        fn = op["f"]
+        main_mod = old["mods"][0]
+        if fn not in old["funcs"] or fn not in new["funcs"]:
+            return
+        fo, fnw = old["funcs"][fn], new["funcs"][fn]
+        if fo["mod"] != main_mod or fnw["mod"] != main_mod or fo["kind"] != fnw["kind"] or fo.get("ill"):
+            return
+        hybrid = ir.clone(old)
+        hybrid["funcs"][fn] = ir.clone(new)["funcs"][fn]
+        # every name the new text refers to must exist in the process (same referenced functions / variables)
+        names_old = {(it.get("f"), it.get("name")) for it in fo["body"]}
+        for it in fnw["body"]:
+            if "f" in it and (it["f"] not in old["funcs"] or old["funcs"][it["f"]]["mod"] != new["funcs"][it["f"]]["mod"]):
+                return
+            if it["t"] == "var" and (it["name"] not in old["vars"] or (it.get("f"), it.get("name")) not in names_old):
+                return
+            if it["t"] in ("call", "ho", "keep") and (it.get("f"), it.get("name")) not in names_old:
+                return
+        text = "\n".join(ir.render_func(hybrid, fn))
+        info["proc"].call({"cmd": "cell", "text": text})
+        self.versions.append(hybrid)
+        info["ver"] = len(self.versions) - 1
+        self.log.append([i, "redefine", fn])
+        self.probe("notebook_redefinition")
 
     def cones(self, info, entry=None):
         sid = self.store_id(info)
